@@ -31,7 +31,7 @@ CHECKS = {
             "trusts oracles/resp_ref.py; program-dominated: the simulator adds failure at write k, peer loss at I/O op k, keep-alive continuation on the live connection, sendfile fallback under lseek/fstat faults; HEAD/204/304-with-body programs are a separately keyed sub-check",
             "deterministic simulation of the connection with fault injection + reference response parser"),
     "C05": ("W2-conn",
-            "fault enumeration: for every generated or corpus byte stream the connection's I/O operations are counted fault-free, then one run per (operation index, fault kind) - exhaustive over crash points of that workload - each followed by a valid connection to the same worker",
+            "fault enumeration: for every generated or corpus byte stream the connection's I/O operations are counted fault-free, then one run per (operation index, fault kind) - exhaustive over crash points of that workload - each followed by a valid connection to the same worker; plus a kernel-world family in which the real run loops of all four worker classes receive hostile connections ended by half-close / close / reset and must survive and keep serving",
             "'rejected' is judged by what the real RequestParser yields for the same bytes; a fault at op k persists for later ops",
             "deterministic simulation with exhaustive per-operation fault enumeration (peer EOF/RST/EPIPE/ENOTCONN)"),
     "C08": ("W2-conn",
